@@ -434,15 +434,25 @@ func NewWith(rng *rand.Rand, id string, enumQuery bool) *Table {
 	if g.chance(0.05) {
 		n = 0
 	}
-	var mainDecls, otherDecls, innerDecls, regs strings.Builder
+	// a second registration function whose local constants shadow `base` and `local`: the same
+	// expression text has another value there
+	twoScopes := g.chance(0.35)
+	scope2 := map[string]string{"base": "/v2", "local": "zone/", "(base + local)": "/v2zone/"}
+	var routes2 []*Route
+	var mainDecls, otherDecls, innerDecls, regs, regs2 strings.Builder
 	for i := 0; i < n; i++ {
 		r := &Route{Verb: pick(rng, verbs)}
+		second := twoScopes && g.chance(0.5)
 		k := 1 + rng.Intn(3)
 		var exprs []string
 		for j := 0; j < k; j++ {
 			p := pick(rng, parts)
 			exprs = append(exprs, p.expr)
-			r.URL += p.val
+			if v, ok := scope2[p.expr]; ok && second {
+				r.URL += v
+			} else {
+				r.URL += p.val
+			}
 		}
 		r.URLExpr = strings.Join(exprs, " + ")
 		h := g.handler(pick(rng, forms))
@@ -483,11 +493,22 @@ func NewWith(rng *rand.Rand, id string, enumQuery bool) *Table {
 			ref = "func(ctx echo.Context) error {\n" + g.renderBody(h, "ctx", "helper") + "\t}"
 			h.Name = "" // Anonymous<pos>: checked by prefix
 		}
+		if second {
+			fmt.Fprintf(&regs2, "\te.%s(%s, %s)\n", r.Verb, r.URLExpr, ref)
+			routes2 = append(routes2, r)
+			continue
+		}
 		fmt.Fprintf(&regs, "\te.%s(%s, %s)\n", r.Verb, r.URLExpr, ref)
 		if g.chance(0.2) {
 			regs.WriteString("\te.Use(\"middleware\")\n")
 		}
 		t.Routes = append(t.Routes, r)
+	}
+	// the routes of the second function follow in the file
+	t.Routes = append(t.Routes, routes2...)
+	second := ""
+	if twoScopes {
+		second = "\nfunc routes2(e *echo.Echo, ct *controller, cv controllerV, ci inner.Controller) {\n\tconst base = \"/v2\"\n\tconst local = \"zone/\"\n\t_, _ = base, local\n\tcl := controllerV{}\n\t_ = cl\n" + regs2.String() + "}\n"
 	}
 	mainSrc := `const base = "/api"
 
@@ -541,7 +562,7 @@ func FormValueJSON(echo.Context, string, any) error           { return nil }
 	cl := controllerV{}
 	_ = cl
 	fmt.Println("registering")
-` + regs.String() + "}\n"
+` + regs.String() + "}\n" + second
 	otherSrc := "const otherConst = \"/other\"\n\nvar _ = fmt.Sprint\n\n" + otherDecls.String()
 	innerSrc := `const Url = "/inner/"
 
